@@ -39,7 +39,7 @@ AXES = {
                   # the table as the only contribution (no pipe at all)
                   "Impedance=@z_long|VacuumGap=0", "Impedance=@z_equal|VacuumGap=0", "Impedance=@z_short|VacuumGap=0", "Impedance=@z_empty|VacuumGap=0"],
     "InitialDistFile": ["@start_txt", "@start_h5_same", "@start_h5_other", "@start_h5_two", "@start_h5_trunc", "@start_txt_outside",
-                        "@start_h5_norecords", "@start_h5_rank0", "@start_h5_rank1", "@start_h5_rank2", "@start_h5_rank5",
+                        "@start_h5_f64", "@start_h5_norecords", "@start_h5_rank0", "@start_h5_rank1", "@start_h5_rank2", "@start_h5_rank5",
                         "@start_h5_same|InitialDistStep=0", "@start_h5_same|InitialDistStep=7", "@start_h5_same|InitialDistStep=-9", "@start_h5_same|InitialDistStep=-2"],
     "RenormalizeCharge": [-1, 3],
     "outstep": [0, 3],
@@ -93,6 +93,12 @@ def mkfiles(wd, exe_plain):
     for rk in (0, 1, 2, 5):
         F["start_h5_rank%d" % rk] = os.path.join(wd, "start_h5_rank%d.h5" % rk)
         subprocess.run([h5j, "--write-rank", F["start_h5_rank%d" % rk], "8", str(rk)], check=True)
+    # a proper record stored as 64-bit floats
+    import array
+    F["start_h5_f64"] = os.path.join(wd, "start_h5_f64.h5")
+    with open(F["start_h5_f64"] + ".raw", "wb") as f:
+        array.array("f", [0.01 * ((i * 7) % 13) for i in range(64)]).tofile(f)
+    subprocess.run([h5j, "--write64", F["start_h5_f64"], "8", F["start_h5_f64"] + ".raw"], check=True)
     with open(F["start_h5_same"], "rb") as f:
         b = f.read()
     p = os.path.join(wd, "start_h5_trunc.h5")
